@@ -193,6 +193,15 @@ Section S.
                      then (f ++ [i], k) else (f, k ++ [i])) new ([], []) in
     f ++ a ++ k.
 
+  (* the same rule read literally from the property text: in front iff it strictly extends an
+     interface of A.  The two readings differ only when a new interface of B extends an
+     earlier new interface of B (Properties/C20.v, C20_add_as_worded_refuted); the oracle
+     accepts either, the model pins the implemented one. *)
+  Definition sp_add_worded (a b : list node) : list node :=
+    let new := filter (fun i => negb (memb i a)) b in
+    let extA := fun i => existsb (fun y => impliesb i y && negb (Nat.eqb i y)) a in
+    filter extA new ++ a ++ filter (fun i => negb (extA i)) new.
+
   Definition same_set (l1 l2 : list node) : bool :=
     forallb (fun x => memb x l2) l1 && forallb (fun x => memb x l1) l2.
 
@@ -225,7 +234,7 @@ Definition check_spec (c : case_t) : bool :=
   && all2 (fun o it => obsb_eqb o (map (fun x => memb x it) nodes)) (c_contains c) its
   && all2 (fun o it => is_some_true (sp_flat_ok g ifs it) o) (c_flat c) its
   && all2 (fun row a => all2 (fun o b => obs_eqb o (sp_sub g a b)) row its) (c_sub c) its
-  && all2 (fun row a => all2 (fun o b => obs_eqb o (sp_add g a b)) row its) (c_add c) its
+  && all2 (fun row a => all2 (fun o b => obs_eqb o (sp_add g a b) || obs_eqb o (sp_add_worded g a b)) row its) (c_add c) its
   && all2 (fun '(x, o) a => is_some_true (fun r => nodupb r && same_set r (x :: a)) o) (c_radd c) its
   && all2 (fun '(d, r, p) '(d', r', p') => obs_eqb d d' && Bool.eqb r r' && obs_eqb p p')
           (c_inst c) (sp_inst g ifs (c_cls c) (c_ops c)).
